@@ -984,10 +984,16 @@ def same_pair(x, y, cls):
 def run_family(chk, prop):
     """Report the findings of property `prop` (C01, C02, C03, C08, C11, or ALL)."""
     props = PROPS if prop == "ALL" else [prop]
-    notes = translators()
-    chk.notes += [n for n in notes if n not in chk.notes]
     mods = [m for p in props for m in MODS[p]]
-    chk.obligations(mods, drivers=DRIVERS)
+    for attempt in range(3):
+        notes = translators()
+        chk.obligations(mods, drivers=DRIVERS)
+        # Gen/*.lean is shared: a concurrent check of another working tree may have rewritten it between the
+        # regeneration and the (locked) build; build again when the file is not the one this tree generates
+        if open(elementwise.OUT).read() == elementwise.render(elementwise.collect()):
+            break
+        chk.notes.append("Gen/Elementwise.lean was rewritten concurrently during attempt %d; obligations rebuilt" % (attempt + 1))
+    chk.notes += [n for n in notes if n not in chk.notes]
     lines, meta, got, dis, crashes = correspond_once(chk)
     if notes and any("self-test" in n for n in notes):
         chk.report("karith:translator-selftest", notes[0], {"notes": notes}, found_input=False)
